@@ -334,8 +334,12 @@ def run_mutators(cx: Ctx, A):
         for inplace in (False, True):
             muts = [("append", lambda d: (d,), lambda: A + (new,)), ("prepend", lambda d: (d,), lambda: (new,) + A),
                     ("expand_by", lambda d: ([d],), lambda: A + (new,)), ("extend", lambda d: ([d],), lambda: A + (new,))]
-            for i in range(len(A) + 1):
-                muts.append((f"insert@{i}", (lambda d, i=i: (i, d)), (lambda i=i: A[:i] + (new,) + A[i:])))
+            def _ins(i):
+                lst = list(A)
+                lst.insert(i, new)          # the ordered-list model: positions beyond either end clamp, negative ones count from the end
+                return tuple(lst)
+            for i in list(range(len(A) + 1)) + [-1, -len(A) - 1, -len(A) - 2, len(A) + 2]:
+                muts.append((f"insert@{i}", (lambda d, i=i: (i, d)), (lambda i=i: _ins(i))))
             for i, old in enumerate(A):
                 for key in ((old, old * 2) if not _same_names() else (old,)):
                     muts.append((f"replace:{key}", (lambda d, key=key: (key, d)), (lambda i=i: A[:i] + (new,) + A[i + 1:])))
